@@ -57,7 +57,6 @@ theorem wsum_zero (d : K) {inc Tk : List String} {φ : List String → Bool} (hk
   have := sumBy_zero (phiW d φ) (edgeSplit t :: splits t) hz
   simpa [sumBy, wsum] using this
 
-variable [DecidableEq K]
 
 /-- result of pruning one non-root subtree -/
 def SubOK (P : K → Prop) (d : K) (inc : List String) (t : PTree K) : Option (PTree K) → Prop
@@ -69,21 +68,21 @@ def SubLOK (P : K → Prop) (d : K) (inc : List String) (cs rs : List (PTree K))
   tipsL rs = (tipsL cs).filter (fun x => inc.contains x) ∧ GoodLensL P rs ∧
     ∀ Tk φ, Kept inc Tk φ → sumBy (wsum d φ) rs = sumBy (wsum d φ) cs
 
-omit [AddCommMonoid K] [DecidableEq K] in
+omit [AddCommMonoid K] in
 theorem goodLens_len (P : K → Prop) (t : PTree K) (h : GoodLens P t) : ∃ x, t.len = some x ∧ P x := by
   cases t with
   | node n l cs => simpa [GoodLens] using h.1
 
-omit [AddCommMonoid K] [DecidableEq K] in
+omit [AddCommMonoid K] in
 theorem goodLens_children (P : K → Prop) (t : PTree K) (h : GoodLens P t) : GoodLensL P t.children := by
   cases t with
   | node n l cs => exact h.2
 
 mutual
-theorem subGo_ok (P : K → Prop) (hadd : ∀ x y, P x → P y → P (x + y)) (h0 : ¬ P 0) (d : K)
+theorem subGo_ok (P : K → Prop) (hadd : ∀ x y, P x → P y → P (x + y)) (d : K)
     (inc : List String) : ∀ (t : PTree K), GoodLens P t → SubOK P d inc t (subGo inc false true t)
   | .node n l cs, hg => by
-    have hL := subL_ok P hadd h0 d inc cs hg.2
+    have hL := subL_ok P hadd d inc cs hg.2
     obtain ⟨x, hlx, hPx⟩ := hg.1
     subst hlx
     have hlx : (some x : Option K) = some x := rfl
@@ -118,12 +117,11 @@ theorem subGo_ok (P : K → Prop) (hadd : ∀ x y, P x → P y → P (x + y)) (h
         have htt : tips (PTree.node n (some x) cs) = tipsL cs := tips_node_ne_nil _ _ _ hcs
         simp only [tipsL, List.append_nil] at htips
         obtain ⟨y, hly, hPy⟩ := goodLens_len P c' hgood.1
-        have hxy : x + y ≠ 0 := fun h => h0 (h ▸ hadd x y hPx hPy)
         simp only [SubOK, Bool.false_eq_true, if_false]
         refine ⟨?_, ?_, ?_⟩
         · rw [tips_rename, htt, htips]
         · refine ⟨⟨x + y, ?_, hadd x y hPx hPy⟩, goodLens_children P c' hgood.1⟩
-          simp [hlx, hly, mergeLen, hxy]
+          simp [hlx, hly, mergeLen]
         · intro Tk φ hk
           have hs := hsum Tk φ hk
           simp only [sumBy, add_zero] at hs
@@ -131,7 +129,7 @@ theorem subGo_ok (P : K → Prop) (hadd : ∀ x y, P x → P y → P (x + y)) (h
             rw [htt, htips, hk.filter]
           have e1 : wsum d φ (PTree.node c'.name (mergeLen (some x) c'.len) c'.children) =
               (if φ (tips c') then x + y else 0) + sumBy (phiW d φ) (splits c') := by
-            simp [wsum, phiW, edgeSplit, tips_rename, splits_rename, hlx, hly, mergeLen, hxy, lenOr]
+            simp [wsum, phiW, edgeSplit, tips_rename, splits_rename, hlx, hly, mergeLen, lenOr]
           have e2 : wsum d φ (PTree.node n (some x) cs) =
               (if φ (tips c') then x else 0) + sumBy (wsum d φ) cs := by
             simp only [wsum, splits, sum_splitsL]
@@ -151,12 +149,12 @@ theorem subGo_ok (P : K → Prop) (hadd : ∀ x y, P x → P y → P (x + y)) (h
             rw [tips_node_ne_nil _ _ _ (by simp), htt, htips, hk.filter]
           simp only [wsum, splits, sum_splitsL, hsum Tk φ hk, phiW_edge]
           rw [hsep]
-theorem subL_ok (P : K → Prop) (hadd : ∀ x y, P x → P y → P (x + y)) (h0 : ¬ P 0) (d : K)
+theorem subL_ok (P : K → Prop) (hadd : ∀ x y, P x → P y → P (x + y)) (d : K)
     (inc : List String) : ∀ (cs : List (PTree K)), GoodLensL P cs → SubLOK P d inc cs (subL inc true cs)
   | [], _ => ⟨rfl, trivial, fun _ _ _ => rfl⟩
   | c :: cs, hg => by
-    have h1 := subGo_ok P hadd h0 d inc c hg.1
-    obtain ⟨ht, hgd, hs⟩ := subL_ok P hadd h0 d inc cs hg.2
+    have h1 := subGo_ok P hadd d inc c hg.1
+    obtain ⟨ht, hgd, hs⟩ := subL_ok P hadd d inc cs hg.2
     simp only [subL]
     cases hr : subGo inc false true c with
     | none =>
@@ -177,7 +175,7 @@ theorem subL_ok (P : K → Prop) (hadd : ∀ x y, P x → P y → P (x + y)) (h0
         simp only [sumBy, h1s Tk φ hk, hs Tk φ hk]
 end
 
-omit [AddCommMonoid K] [DecidableEq K] in
+omit [AddCommMonoid K] in
 theorem goodLensL_mem (P : K → Prop) : ∀ (cs : List (PTree K)), GoodLensL P cs → ∀ c ∈ cs, GoodLens P c
   | [], _, c, hc => by simp at hc
   | c0 :: cs, hg, c, hc => by
@@ -186,14 +184,14 @@ theorem goodLensL_mem (P : K → Prop) : ∀ (cs : List (PTree K)), GoodLensL P 
     · exact goodLensL_mem P cs hg.2 c h
 
 /-- the pruned root before renaming / re-unrooting -/
-theorem subGo_root (P : K → Prop) (hadd : ∀ x y, P x → P y → P (x + y)) (h0 : ¬ P 0) (d : K)
+theorem subGo_root (P : K → Prop) (hadd : ∀ x y, P x → P y → P (x + y)) (d : K)
     (inc : List String) (kr : Bool) (n : String) (l : Option K) (cs : List (PTree K)) (hcs : cs ≠ [])
     (hg : GoodLensL P cs) (r0 : PTree K) (h : subGo inc kr true (PTree.node n l cs) = some r0)
     (hr0 : r0.children ≠ []) :
     tipsL r0.children = (tipsL cs).filter (fun x => inc.contains x) ∧ GoodLensL P r0.children ∧
       ∀ Tk φ, Kept inc Tk φ → (∀ x ∈ Tk, x ∈ tipsL cs) →
         sumBy (phiW d φ) (splitsL r0.children) = sumBy (phiW d φ) (splitsL cs) := by
-  have hL := subL_ok P hadd h0 d inc cs hg
+  have hL := subL_ok P hadd d inc cs hg
   have hemp : cs.isEmpty = false := by cases cs <;> simp_all
   simp only [subGo, hemp, Bool.not_true, Bool.or_false, Bool.and_false, Bool.false_eq_true, if_false] at h
   generalize hrs : subL inc true cs = rs at hL h
@@ -250,12 +248,11 @@ theorem getSubTree_ok [Add K] [Zero K] (t : PTree K) (inc : List String) (im kr 
       · simp only [he, if_false, reduceIte, Bool.false_eq_true, Except.ok.injEq] at h
         exact ⟨r0, rfl, by simpa using he, h.symm⟩
 
-omit [AddCommMonoid K] [DecidableEq K] in
+omit [AddCommMonoid K] in
 theorem goodLensL_iff (P : K → Prop) : ∀ (cs : List (PTree K)), GoodLensL P cs ↔ ∀ c ∈ cs, GoodLens P c
   | [] => by simp [GoodLensL]
   | c :: cs => by simp [GoodLensL, goodLensL_iff P cs]
 
-omit [DecidableEq K] in
 theorem goodLensL_unrooted (P : K → Prop) (hadd : ∀ x y, P x → P y → P (x + y)) (t : PTree K)
     (hg : GoodLensL P t.children) : GoodLensL P (unrooted t).children := by
   cases t with
@@ -293,7 +290,7 @@ theorem goodLensL_unrooted (P : K → Prop) (hadd : ∀ x y, P x → P y → P (
 /-- `get_sub_tree(names, tipsonly=True)`: the result has exactly the kept tips (in the original
 order), its edges still carry lengths in `P`, and every bipartition functional over the kept tips
 (weighted unrooted topology; in particular every distance) is the original one. -/
-theorem getSubTree_phi (P : K → Prop) (hadd : ∀ x y, P x → P y → P (x + y)) (h0 : ¬ P 0) (d : K)
+theorem getSubTree_phi (P : K → Prop) (hadd : ∀ x y, P x → P y → P (x + y)) (d : K)
     (t : PTree K) (inc : List String) (im kr : Bool) (r : PTree K)
     (h : getSubTree t inc im kr true = .ok r)
     (hg : GoodLensL P t.children) (hnd : (tips t).Nodup) :
@@ -310,7 +307,7 @@ theorem getSubTree_phi (P : K → Prop) (hadd : ∀ x y, P x → P y → P (x + 
       split at h0'
       · injection h0' with h0'; subst h0'; simp at hr0
       · cases h0'
-    obtain ⟨ht, hgd, hs⟩ := subGo_root P hadd h0 d inc kr n l cs hcs hg r0 h0' hr0
+    obtain ⟨ht, hgd, hs⟩ := subGo_root P hadd d inc kr n l cs hcs hg r0 h0' hr0
     have htt : tips (PTree.node n l cs) = tipsL cs := tips_node_ne_nil _ _ _ hcs
     -- the renamed root
     generalize hr1 : PTree.node (if r0.name = "" then "" else "root") r0.len r0.children = r1 at h
@@ -344,14 +341,14 @@ theorem getSubTree_phi (P : K → Prop) (hadd : ∀ x y, P x → P y → P (x + 
       exact ⟨hr1t, hr1g, hr1d⟩
 
 /-- … in particular every distance among kept tips -/
-theorem getSubTree_spec (P : K → Prop) (hadd : ∀ x y, P x → P y → P (x + y)) (h0 : ¬ P 0) (d : K)
+theorem getSubTree_spec (P : K → Prop) (hadd : ∀ x y, P x → P y → P (x + y)) (d : K)
     (t : PTree K) (inc : List String) (im kr : Bool) (r : PTree K)
     (h : getSubTree t inc im kr true = .ok r)
     (hg : GoodLensL P t.children) (hnd : (tips t).Nodup) :
     tips r = (tips t).filter (fun x => inc.contains x) ∧
       ∀ a b, inc.contains a = true → inc.contains b = true → a ∈ tips t → b ∈ tips t →
         distSpec d a b r = distSpec d a b t := by
-  obtain ⟨ht, _, hφ⟩ := getSubTree_phi P hadd h0 d t inc im kr r h hg hnd
+  obtain ⟨ht, _, hφ⟩ := getSubTree_phi P hadd d t inc im kr r h hg hnd
   refine ⟨ht, fun a b ha hb hat hbt => ?_⟩
   have hmem : ∀ z, inc.contains z = true → z ∈ tips t → z ∈ tips r := by
     intro z hz hzt; rw [ht, List.mem_filter]; exact ⟨hzt, hz⟩
